@@ -13,6 +13,8 @@ def run(ck):
     if extra:
         extra(ck, w)
     r1_degenerate(ck, w)
+    from . import c10
+    c10.eval_ops(ck, w, 'C19', 'C19.N1')
 
 
 RA = 'midnight_circuits::parsing::automaton::RawAutomaton::'
